@@ -139,8 +139,12 @@ pub fn run(ctx: &Ctx) -> Report {
     for (_, t, _) in cases.iter().step_by((cases.len() / 6).max(1)).take(6) {
         rep.sample(json!({"term": wire::term(t)}));
     }
-    let model = driver::run(&reqs);
     rep.evaluations = reqs.len() as u64;
+    if std::env::args().any(|a| a == "--panics-only") {
+        // (as a sub-command of C10: only the real evaluator is observed — a panic is the failure)
+        return rep;
+    }
+    let model = driver::run(&reqs);
     for i in 0..reqs.len() {
         if model[i] == "unmodelled" || model[i] == "nofuel" {
             rep.count(&format!("model:{}", model[i]));
